@@ -44,13 +44,13 @@ type StmtMeta struct {
 }
 
 type Meta struct {
-	Stream   string     `json:"stream"` // clean | malformed | finding:<pred>
-	Table    string     `json:"table"`
-	Cols     []ColMeta  `json:"cols"`
-	PK       []int      `json:"pk"`
-	AutoInc  bool       `json:"auto_inc"`
-	OnlyCare bool       `json:"only_care"`
-	Stmts    []StmtMeta `json:"stmts"`
+	Stream   string            `json:"stream"` // clean | malformed | finding:<pred>
+	Table    string            `json:"table"`
+	Cols     []ColMeta         `json:"cols"`
+	PK       []int             `json:"pk"`
+	AutoInc  bool              `json:"auto_inc"`
+	OnlyCare bool              `json:"only_care"`
+	Stmts    []StmtMeta        `json:"stmts"`
 	Extra    map[string]string `json:"extra,omitempty"`
 }
 
